@@ -28,15 +28,16 @@ def splitSign : List Char → Bool × List Char
   | '+' :: r => (false, r)
   | r => (false, r)
 
+/-- `(. d*)?`: fraction digits and rest -/
+def splitFrac : List Char → List Char × List Char
+  | '.' :: t => (t.takeWhile Char.isDigit, t.dropWhile Char.isDigit)
+  | r => ([], r)
+
 /-- `d* (. d*)?` with at least one digit; returns integer digits, fraction digits, rest -/
 def parseMant (r : List Char) : Option (List Char × List Char × List Char) :=
   let ip := r.takeWhile Char.isDigit
-  let r1 := r.dropWhile Char.isDigit
-  let (fp, r2) : List Char × List Char :=
-    match r1 with
-    | '.' :: t => (t.takeWhile Char.isDigit, t.dropWhile Char.isDigit)
-    | _ => ([], r1)
-  if ip.isEmpty && fp.isEmpty then none else some (ip, fp, r2)
+  let fr := splitFrac (r.dropWhile Char.isDigit)
+  if ip.isEmpty && fr.1.isEmpty then none else some (ip, fr.1, fr.2)
 
 /-- `([eE][+-]?d+)?` up to the end of the lexeme -/
 def parseExpPart : List Char → Option Int
